@@ -191,6 +191,13 @@ func c15Prepare(t *rapid.T) (*c15State, func()) {
 		lu, _ := url.Parse(r.hdr.Get("Location"))
 		_ = doReq(srv, "DELETE", lu.Path, nil, nil)
 		s.dead = append(s.dead, path.Base(lu.Path))
+		// a session that a mount fell back to (the source does not hold the blob): it is bound to the digest asked for
+		if r := doReq(srv, "POST", "/v2/r1/blobs/uploads/?mount="+dig("sha256", []byte("mounted from nowhere"))+"&from=r2", nil, nil); r.code == 202 {
+			if lu, err := url.Parse(r.hdr.Get("Location")); err == nil {
+				s.sessions = append(s.sessions, path.Base(lu.Path))
+				s.sessState[path.Base(lu.Path)] = lu.Query().Get("state")
+			}
+		}
 	}
 	switch s.kind {
 	case "manifest-blobs-deleted":
@@ -340,7 +347,7 @@ func c15Gen(t *rapid.T, s *c15State) c15Req {
 		q.method = "PUT"
 		// a completing PUT that is right in everything but, possibly, the digest
 		qs.Set("state", tok)
-		qs.Set("digest", rapid.SampledFrom(append(append([]string{}, s.digests...), "sha256:"+strings.Repeat("0", 64), "sha512:"+strings.Repeat("0", 128), dig("sha256", q.body), dig("sha512", q.body))).Draw(t, "completionDigest"))
+		qs.Set("digest", rapid.SampledFrom(append(append([]string{}, s.digests...), "sha256:"+strings.Repeat("0", 64), "sha512:"+strings.Repeat("0", 128), dig("sha256", q.body), dig("sha512", q.body), dig("sha256", q.body), dig("sha256", q.body), dig("sha256", q.body))).Draw(t, "completionDigest"))
 		delete(q.opt.hdr, "Content-Range")
 		q.target = p + "?" + qs.Encode()
 	}
